@@ -405,6 +405,17 @@ fn one_case_rec(sc: &Scenario, id: String, mut rng: crate::rng::Rng, record: boo
         }
     }
     oracle_quiesced(&mut c, &all, true);
+    // on a PCI transport `queue_unset` does nothing (the crate's PciTransport cannot disable a queue): there
+    // the reset at the transport's drop is the only thing that quiesces the device, so queue memory must
+    // outlive the transport — the same history with the queue_unset calls taken out
+    {
+        let pci_like: Vec<Tok> = all.iter().filter(|t| !matches!(t, Tok::QueueUnset(_))).cloned().collect();
+        let n0 = c.oracle_failures.len();
+        oracle_quiesced(&mut c, &pci_like, true);
+        for f in c.oracle_failures[n0..].iter_mut() {
+            *f = format!("{} [on a transport whose queue_unset is a no-op, as PciTransport's]", f);
+        }
+    }
     // `Transport` does not oblige an implementation to reset on drop. All drivers except sound and
     // 9p (which have no `Drop` and rely on the transport, see Props/C09 `needs_reset_on_drop`)
     // disable their queues themselves, so for them the same must hold without the reset.
